@@ -447,3 +447,759 @@ def check_C06(work, tier, seed):
 
 
 CHECKS.update({"C05": check_C05, "C06": check_C06})
+
+
+# ------------------------------------------------------------------ C04 tweak histories
+
+def gen_c04(seed, tier, cap_for=lambda k: 2):
+    sc = Sc(seed)
+    thorough = tier == "thorough"
+    for kind in ("s128", "s64"):
+        bs = BS[kind]
+        for z in (1, 2):
+            # fresh key => zero tweak; every length 1..bs; NULL; history independence
+            sc.reset("c04-len-%s-%d" % (kind, z))
+            key = sc.rb(z * bs)
+            sc.ks_set_tweaked_key(kind, 0, key)
+            blk = sc.rb(bs)
+            sc.ks_crypt(True, kind, 0, blk, t=1)
+            sc.ks_crypt(False, kind, 0, blk, t=1)
+            for ln in range(1, bs + 1):
+                sc.ks_set_tweak(kind, 0, sc.rb_nz(ln))
+                if ln % 3 == 1 or thorough:
+                    sc.ks_crypt(True, kind, 0, sc.rb(bs), t=1)
+            sc.ks_set_tweak(kind, 0, None, bs)
+            sc.ks_crypt(True, kind, 0, blk, t=1)
+            sc.ks_set_tweak(kind, 0, sc.rb_nz(bs))
+            sc.ks_set_tweak(kind, 0, None, 1)           # null with a short length still means all-zero
+            sc.ks_crypt(False, kind, 0, blk, t=1)
+            # invalid tweak changes leave the schedule as it was
+            sc.ks_set_tweak(kind, 0, sc.rb(bs), 0)
+            sc.ks_set_tweak(kind, 0, sc.rb(bs + 1), bs + 1)
+            sc.ks_set_tweak(kind, "null", sc.rb(bs))
+            sc.ks_crypt(True, kind, 0, blk, t=1)
+            # random histories
+            for h in range(6 if thorough else 2):
+                sc.reset("c04-hist-%s-%d-%d" % (kind, z, h))
+                o = sc.rng.randrange(8)
+                sc.ks_set_tweaked_key(kind, o, sc.rb(z * bs))
+                for i in range(sc.rng.randrange(3, 40 if thorough else 14)):
+                    r = sc.rng.random()
+                    if r < 0.08:
+                        sc.ks_set_tweak(kind, o, None, sc.rng.randrange(1, bs + 1))
+                    elif r < 0.12:
+                        sc.ks_set_tweaked_key(kind, o, sc.rb(sc.rng.choice((1, 2)) * bs))
+                    else:
+                        sc.ks_set_tweak(kind, o, sc.rb(sc.rng.randrange(1, bs + 1)))
+                    if sc.rng.random() < 0.35:
+                        sc.ks_crypt(sc.rng.random() < 0.5, kind, o, sc.rb(bs), t=1)
+                # walking tweak bytes (every TK1 cell position)
+            sc.reset("c04-walk-%s-%d" % (kind, z))
+            sc.ks_set_tweaked_key(kind, 1, sc.rb(z * bs))
+            for p in range(bs):
+                sc.ks_set_tweak(kind, 1, walking(bs, p, 1 << sc.rng.randrange(8)))
+                sc.ks_crypt(True, kind, 1, sc.rb(bs), t=1, rr=2)
+        # the same through the CTR tweak API
+        for i in range(3 if thorough else 1):
+            sc.reset("c04-ctr-%s-%d" % (kind, i))
+            sc.ctr_init(kind, 0, cap=cap_for(kind))
+            sc.ctr_set_tweaked_key(kind, 0, sc.rb(sc.rng.choice((1, 2)) * bs))
+            sc.ctr_encrypt(kind, 0, sc.rb(bs + 3))               # fresh: zero tweak
+            for j in range(6):
+                r = sc.rng.random()
+                if r < 0.2:
+                    sc.ctr_set_tweak(kind, 0, None, sc.rng.randrange(1, bs + 1))
+                else:
+                    sc.ctr_set_tweak(kind, 0, sc.rb_nz(sc.rng.randrange(1, bs + 1)))
+                sc.ctr_set_counter(kind, 0, sc.rb(bs))
+                sc.ctr_encrypt(kind, 0, sc.rb(sc.rng.randrange(1, 3 * bs)))
+            sc.ctr_cleanup(kind, 0)
+    return sc
+
+
+def check_C04(work, tier, seed):
+    out = Outcome()
+    r, ok = run_mc(work, out, "MC_Tweak", "MC_Tweak", must_cover=("SetTweakedKey", "SetTweak", "SetTweakNull"))
+    if not ok:
+        mc_violation("C04", out, "MC_Tweak", r)
+    for neg in ("MCneg_Tweak_stale", "MCneg_Tweak_noext", "MCneg_Tweak_xornew"):
+        run_mc(work, out, "MC_Tweak", neg, expect_fail=True)
+    b = build(work)
+    sc = gen_c04(seed, tier)
+    lines = conform(work, b, "C04", seed, sc.text(), out)
+    note_distinct(out, lines, ("o", "tweak", "len", "ctr"))
+    out.samples = sample_events([x for x in lines if "tweak" in x])
+    return out, dict(
+        level="model_checking",
+        rule="Design: MC_Tweak (TLC exhaustive, symbolic xor algebra = all keys/tweaks at once): all sequences of "
+             "SetTweakedKey/SetTweak(len)/SetTweakNull/invalid calls up to the depth bound keep schedule = "
+             "Fresh(key, last tweak); three wrong update rules must fail. Code: every tweak length 1..bs, NULL, "
+             "invalid lengths, random histories of tweak changes, walking tweak bytes, and the CTR tweak API; after "
+             "every call the schedule image and remembered tweak are compared by TLC with the schedule computed "
+             "afresh from (key, latest tweak) by SkinnySpec, and outputs with SKINNY with TK1 = tweak.",
+        assumptions=["tweak-domain constant 0x2 on cell 2 as recommended in the SKINNY paper (property statement)"])
+
+
+# ------------------------------------------------------------------ C03 inverses and Mantis mode algebra
+
+def gen_c03(seed, tier, cap_for=lambda k: 2):
+    sc = Sc(seed)
+    thorough = tier == "thorough"
+    # Mantis mode machine on key schedules and on the parallel object
+    for i in range(10 if thorough else 4):
+        sc.reset("c03-mode-%d" % i)
+        o = sc.rng.randrange(8)
+        sc.mk_set_key(o, sc.rb(16), 5 + sc.rng.randrange(4), sc.rng.randrange(2))
+        for j in range(sc.rng.randrange(4, 16)):
+            r = sc.rng.random()
+            if r < 0.4:
+                sc.mk_swap(o)
+            elif r < 0.6:
+                sc.mk_set_tweak(o, sc.rb(8) if sc.rng.random() < 0.85 else None)
+            elif r < 0.68:
+                sc.mk_set_key(o, sc.rb(16), 5 + sc.rng.randrange(4), sc.rng.randrange(2))
+            blk = sc.rb(8)
+            sc.mk_crypt(o, blk)
+            if sc.rng.random() < 0.4:
+                sc.mk_crypt(o, blk, tweak=sc.rb(8))
+    for i in range(4 if thorough else 2):
+        sc.reset("c03-parmode-%d" % i)
+        sc.par_init("mantis", 0, cap=cap_for("mantis"))
+        sc.par_set_key("mantis", 0, sc.rb(16), rounds=5 + sc.rng.randrange(4), mode=sc.rng.randrange(2))
+        for j in range(5):
+            if sc.rng.random() < 0.7:
+                sc.par_swap(0)
+            nb = sc.rng.choice((1, 3, 8, 9, 17))
+            sc.par_crypt("mantis", 0, sc.rb(nb * 8), tweak=sc.rb(nb * 8))
+        sc.par_cleanup("mantis", 0)
+    # SKINNY: encrypt and decrypt of the same arbitrary blocks, single-block and parallel
+    for kind in ("s128", "s64"):
+        bs = BS[kind]
+        for z in (1, 2, 3):
+            sc.reset("c03-inv-%s-%d" % (kind, z))
+            key = sc.rb(z * bs)
+            sc.ks_set_key(kind, 0, key)
+            sc.par_init(kind, 0, cap=cap_for(kind))
+            sc.par_set_key(kind, 0, key)
+            for nb in ((1, 4, 9, 17, 19) if thorough else (9, 17)):
+                data = sc.rb(nb * bs)
+                sc.par_crypt(kind, 0, data, enc=True)
+                sc.par_crypt(kind, 0, data, enc=False)      # decrypt arbitrary data
+            for i in range(6 if thorough else 2):
+                blk = sc.rb(bs)
+                sc.ks_crypt(True, kind, 0, blk)
+                sc.ks_crypt(False, kind, 0, blk)
+            # reduced rounds drive every inverse S-box copy of the vector code
+            for rr in (1, 2):
+                for v in range(0, 256 if kind == "s128" else 16, 1 if thorough else (16 if kind == "s128" else 2)):
+                    data = b"".join(bytes(a ^ b for a, b in zip(cellsweep_blocks(kind, (v + 3 * j) % 256), bytes([j] * bs)))
+                                    for j in range(9))
+                    sc.par_crypt(kind, 0, data, enc=False, rr=rr)
+                    if v % 4 == 0:
+                        sc.par_crypt(kind, 0, data, enc=True, rr=rr)
+            sc.par_cleanup(kind, 0)
+    return sc
+
+
+def check_C03(work, tier, seed):
+    out = Outcome()
+    r, ok = run_mc(work, out, "MC_Mode", "MC_Mode", must_cover=("SetKey", "SetTweak", "Swap"))
+    if not ok:
+        mc_violation("C03", out, "MC_Mode", r)
+    for neg in ("MCneg_Mode_noalpha", "MCneg_Mode_losetweak"):
+        run_mc(work, out, "MC_Mode", neg, expect_fail=True)
+    b = build(work)
+    lines = backend_sweep(work, b, "C03", seed, lambda cf: gen_c03(seed, tier, cf), out)
+    note_distinct(out, lines, ("o", "n", "tweak", "mode"))
+    out.samples = sample_events([x for x in lines if "swap" in x or "par_" in x])
+    return out, dict(
+        level="model_checking",
+        rule="Design: MC_Mode (TLC exhaustive, symbolic xor algebra): all sequences of SetKey(enc|dec)/SetTweak/Swap "
+             "keep <<k0,k0',k1,tweak>> = MKs(key, current mode, last tweak), hence swap.swap = id and swap = rekey in "
+             "the other mode + tweak; two wrong swaps must fail. Code: random mode-machine walks on MantisKey_t and on "
+             "the parallel object (state image and every crypt validated by TLC against MantisSpec in the model's "
+             "mode); SKINNY: the same arbitrary blocks through encrypt AND decrypt of the single-block and parallel "
+             "functions, full and reduced rounds (every inverse S-box copy), each validated against SkinnySpec, on "
+             "every back end - so round trips follow from conformance plus Dec.Enc = id in the specification.",
+        assumptions=["inverse laws of the reference ciphers are checked on their components at TLC start-up"])
+
+
+# ------------------------------------------------------------------ C07 parallel ECB
+
+def gen_c07(seed, tier, cap_for=lambda k: 2):
+    sc = Sc(seed)
+    thorough = tier == "thorough"
+    for kind in ("s128", "s64", "mantis"):
+        bs = BS[kind]
+        sc.reset("c07-counts-%s" % kind)
+        sc.par_init(kind, 0, cap=cap_for(kind))
+        if kind == "mantis":
+            sc.par_set_key(kind, 0, sc.rb(16), rounds=5 + sc.rng.randrange(4), mode=1)
+        else:
+            sc.par_set_key(kind, 0, sc.rb(sc.rng.randrange(1, 4) * bs))
+        for nb in range(0, 20 if not thorough else 26):
+            data = sc.rb(nb * bs)
+            tw = sc.rb(nb * 8) if kind == "mantis" else None
+            ip = 1 if nb % 3 == 1 else None
+            sc.par_crypt(kind, 0, data, enc=True, tweak=tw, ip=ip)
+            if kind != "mantis" and (thorough or nb % 2 == 1):
+                sc.par_crypt(kind, 0, data, enc=False, ip=ip)
+        # byte counts that are not whole blocks are rejected
+        for n in (1, bs - 1, bs + 1, 8 * bs + 3):
+            sc.par_crypt(kind, 0, sc.rb(n), tweak=sc.rb(16 * 8) if kind == "mantis" else None)
+        sc.par_cleanup(kind, 0)
+        if kind == "mantis":
+            for r in (5, 6, 7, 8):
+                for mode in (1, 0):
+                    sc.reset("c07-mantis-%d-%d" % (r, mode))
+                    sc.par_init(kind, 0, cap=cap_for(kind))
+                    sc.par_set_key(kind, 0, sc.rb(16), rounds=r, mode=mode)
+                    for nb in (7, 8, 9, 16, 19):
+                        # distinct tweak per block so that a shifted tweak index shows
+                        sc.par_crypt(kind, 0, sc.rb(nb * 8), tweak=bytes((i * 29 + 7) % 256 for i in range(nb * 8)))
+                    sc.par_cleanup(kind, 0)
+        else:
+            for z in (1, 2, 3):
+                sc.reset("c07-z-%s-%d" % (kind, z))
+                sc.par_init(kind, 0, cap=cap_for(kind))
+                sc.par_set_key(kind, 0, sc.rb(z * bs))
+                for nb in (3, 8, 13, 16, 17):
+                    data = sc.rb(nb * bs)
+                    sc.par_crypt(kind, 0, data, enc=True)
+                    sc.par_crypt(kind, 0, data, enc=False)
+                # structured data, reduced rounds: every S-box copy in every lane
+                for v in range(0, 256 if kind == "s128" else 16, (8 if kind == "s128" else 1) if not thorough else 1):
+                    data = b"".join(cellsweep_blocks(kind, (v + 11 * j) % 256) for j in range(8))
+                    sc.par_crypt(kind, 0, data, enc=True, rr=1)
+                sc.par_cleanup(kind, 0)
+    return sc
+
+
+def check_C07(work, tier, seed):
+    out = Outcome()
+    r, ok = run_mc(work, out, "MC_Par", "MC_Par", must_cover=("Crypt",))
+    if not ok:
+        mc_violation("C07", out, "MC_Par", r)
+    run_mc(work, out, "MC_Par", "MCneg_Par_noremainder", expect_fail=True)
+    b = build(work)
+    lines = backend_sweep(work, b, "C07", seed, lambda cf: gen_c07(seed, tier, cf), out)
+    note_distinct(out, lines, ("o", "n", "tweak", "cap"))
+    out.samples = sample_events([x for x in lines if '"par_' in x])
+    return out, dict(
+        level="model_checking",
+        rule="Design: MC_Par (TLC exhaustive): batch loop + remainder loop for psize in {4,8} blocks with/without "
+             "vector table, all block counts 0..3*8+1 and non-multiple byte counts, equals map of the single-block "
+             "function and never touches bytes past size; a variant without the remainder loop must fail. Code: "
+             "block counts 0..19(25), ragged byte counts, in/out of place, Mantis with a distinct tweak per block, "
+             "all rounds and modes, all key sizes, reduced-round S-box sweeps, on every back end; each output block "
+             "validated by TLC against the single-block cipher of the specification; parallel_size against ParSize.",
+        assumptions=["single-block conformance is C01/C02"])
+
+
+# ------------------------------------------------------------------ C10 key lengths
+
+def gen_c10(seed, tier, cap_for=lambda k: 2):
+    sc = Sc(seed)
+    thorough = tier == "thorough"
+    HUGE = (2147483647, 4294967295, 65536 + 16, 256 + 16)
+    for kind in ("s128", "s64"):
+        bs = BS[kind]
+        lens = list(range(0, 3 * bs + 17))
+        # plain key schedule: every length, prior state Unset then Set
+        sc.reset("c10-ks-%s" % kind)
+        for ln in lens:
+            key = sc.rb_nz(max(ln, 1))[:ln] if ln else b""
+            sc.ks_set_key(kind, 0, key if ln else b"", ln)
+            if bs <= ln <= 3 * bs:
+                blk = sc.rb(bs)
+                sc.ks_crypt(True, kind, 0, blk)
+                if thorough:
+                    sc.ks_crypt(False, kind, 0, blk)
+        for h in HUGE:
+            sc.ks_set_key(kind, 0, sc.rb_nz(3 * bs), h)
+        sc.ks_set_key(kind, 0, None, bs)
+        sc.ks_set_key(kind, "null", sc.rb(bs))
+        sc.ks_crypt(True, kind, 0, sc.rb(bs))
+        # tweaked
+        sc.reset("c10-tks-%s" % kind)
+        for ln in lens:
+            key = sc.rb_nz(max(ln, 1))[:ln] if ln else b""
+            sc.ks_set_tweaked_key(kind, 0, key if ln else b"", ln)
+            if bs <= ln <= 2 * bs:
+                sc.ks_set_tweak(kind, 0, sc.rb(bs))
+                sc.ks_crypt(True, kind, 0, sc.rb(bs), t=1)
+        for h in HUGE:
+            sc.ks_set_tweaked_key(kind, 0, sc.rb_nz(2 * bs), h)
+        sc.ks_set_tweaked_key(kind, 0, None, bs)
+        sc.ks_crypt(True, kind, 0, sc.rb(bs), t=1)
+        # CTR (plain and tweaked) and parallel
+        sc.reset("c10-ctr-%s" % kind)
+        sc.ctr_init(kind, 0, cap=cap_for(kind))
+        for ln in lens:
+            key = sc.rb_nz(max(ln, 1))[:ln] if ln else b""
+            sc.ctr_set_key(kind, 0, key if ln else b"", ln)
+            if bs <= ln <= 3 * bs or ln % 7 == 0:
+                sc.ctr_set_counter(kind, 0, sc.rb(bs))
+                sc.ctr_encrypt(kind, 0, sc.rb(bs + 1))
+        for h in HUGE:
+            sc.ctr_set_key(kind, 0, sc.rb_nz(3 * bs), h)
+        sc.ctr_encrypt(kind, 0, sc.rb(bs))
+        sc.ctr_cleanup(kind, 0)
+        sc.reset("c10-ctrt-%s" % kind)
+        sc.ctr_init(kind, 0, cap=cap_for(kind))
+        for ln in lens:
+            key = sc.rb_nz(max(ln, 1))[:ln] if ln else b""
+            sc.ctr_set_tweaked_key(kind, 0, key if ln else b"", ln)
+            if bs <= ln <= 2 * bs or ln % 7 == 0:
+                sc.ctr_set_counter(kind, 0, sc.rb(bs))
+                sc.ctr_encrypt(kind, 0, sc.rb(bs + 1))
+        for h in HUGE:
+            sc.ctr_set_tweaked_key(kind, 0, sc.rb_nz(2 * bs), h)
+        sc.ctr_encrypt(kind, 0, sc.rb(bs))
+        sc.ctr_cleanup(kind, 0)
+        sc.reset("c10-par-%s" % kind)
+        sc.par_init(kind, 0, cap=cap_for(kind))
+        for ln in lens:
+            key = sc.rb_nz(max(ln, 1))[:ln] if ln else b""
+            sc.par_set_key(kind, 0, key if ln else b"", ln)
+            if bs <= ln <= 3 * bs or ln % 7 == 0:
+                sc.par_crypt(kind, 0, sc.rb(2 * bs), enc=True)
+        for h in HUGE:
+            sc.par_set_key(kind, 0, sc.rb_nz(3 * bs), h)
+        sc.par_crypt(kind, 0, sc.rb(bs), enc=False)
+        sc.par_cleanup(kind, 0)
+    # Mantis: only 16-byte keys and 5..8 rounds
+    sc.reset("c10-mantis")
+    sc.mk_set_key(0, sc.rb(16), 6, 1)
+    sc.ctr_init("mantis", 0, cap=cap_for("mantis"))
+    sc.par_init("mantis", 0, cap=cap_for("mantis"))
+    sc.ctr_set_key("mantis", 0, sc.rb(16), rounds=7)
+    sc.par_set_key("mantis", 0, sc.rb(16), rounds=7, mode=0)
+    for ln in list(range(0, 34)) + [2147483647, 4294967295]:
+        for rounds in ((8,) if ln != 16 else range(0, 12)):
+            key = sc.rb_nz(max(min(ln, 40), 1))[:min(ln, 40)]
+            sc.mk_set_key(0, key, rounds, sc.rng.randrange(2), ln)
+            sc.ctr_set_key("mantis", 0, key, ln, rounds=rounds)
+            sc.par_set_key("mantis", 0, key, ln, rounds=rounds, mode=sc.rng.randrange(2))
+            if ln % 5 == 0 or ln == 16:
+                sc.mk_crypt(0, sc.rb(8))
+                sc.ctr_encrypt("mantis", 0, sc.rb(9))
+                sc.par_crypt("mantis", 0, sc.rb(16), tweak=sc.rb(16))
+    for rounds in (2147483647, 4294967295, 13, 256 + 6):
+        sc.mk_set_key(0, sc.rb(16), rounds, 1)
+        sc.ctr_set_key("mantis", 0, sc.rb(16), rounds=rounds)
+    sc.mk_crypt(0, sc.rb(8))
+    sc.ctr_cleanup("mantis", 0)
+    sc.par_cleanup("mantis", 0)
+    return sc
+
+
+def check_C10(work, tier, seed):
+    out = Outcome()
+    r, ok = run_mc(work, out, "MC_KeyLen", "MC_KeyLen", must_cover=("SetKey",))
+    if not ok:
+        mc_violation("C10", out, "MC_KeyLen", r)
+    run_mc(work, out, "MC_KeyLen", "MCneg_KeyLen_shipped", expect_fail=True)
+    b = build(work)
+    # stack painted with a non-zero pattern: stale stack contents must not leak into a padded key
+    scs = []
+    for paint in ((165,) if tier == "quick" else (165, 255, 256)):
+        sc = gen_c10(seed, tier)
+        sc.lines.insert(2, "set paint=%d" % paint)
+        scs.append(sc)
+    lines = []
+    for sc in scs:
+        lines += conform(work, b, "C10", seed, sc.text(), out)
+    note_distinct(out, lines, ("o", "len", "nr"))
+    out.samples = sample_events([x for x in lines if "set_key" in x or "set_tweaked_key" in x], maxlen=200)
+    return out, dict(
+        level="model_checking",
+        exhaustive=True,
+        rule="Design: MC_KeyLen (TLC exhaustive): partial tweakey load as a word-wise model; for every length "
+             "0..3bs+16 and the huge classes x entry point x prior state: accepted iff documented, loaded tweakey = "
+             "zero-padded key, rejected => unchanged; the shipped load (16-bit word, unassigned rows) must fail. "
+             "Code: EVERY length 0..3*bs+16 plus 2^31-1, 2^32-1 and two wrap-around classes for each of the 13 "
+             "key-setting entry points (Mantis: every rounds value 0..11 and huge), non-zero key bytes, stack painted; "
+             "schedule image and later outputs validated by TLC against the zero-padded key; rejected calls must "
+             "return 0 and leave image and outputs unchanged. exhaustive refers to the length dimension.",
+        assumptions=["key bytes sampled; lengths enumerated"])
+
+
+CHECKS.update({"C03": check_C03, "C04": check_C04, "C07": check_C07, "C10": check_C10})
+
+
+# ------------------------------------------------------------------ life cycle: C14 C15 C16 C17
+
+def valid_key(sc, kind, tweaked=False):
+    if kind == "mantis":
+        return sc.rb(16)
+    return sc.rb(BS[kind] * sc.rng.randrange(1, 3 if tweaked else 4))
+
+
+def ctr_use_all(sc, kind, o, mid=False):
+    """every CTR function once with valid arguments (results depend on the object's phase)"""
+    bs = BS[kind]
+    sc.ctr_set_key(kind, o, valid_key(sc, kind), rounds=6)
+    if kind != "mantis":
+        sc.ctr_set_tweaked_key(kind, o, valid_key(sc, kind, True))
+    sc.ctr_set_tweak(kind, o, sc.rb(bs if kind != "mantis" else 8))
+    sc.ctr_set_counter(kind, o, sc.rb(bs))
+    sc.ctr_encrypt(kind, o, sc.rb(bs + 3 if mid else 2 * bs))
+
+
+def par_use_all(sc, kind, o):
+    bs = BS[kind]
+    sc.par_set_key(kind, o, valid_key(sc, kind), rounds=6, mode=1)
+    if kind == "mantis":
+        sc.par_swap(o)
+        sc.par_crypt(kind, o, sc.rb(9 * bs), tweak=sc.rb(9 * bs))
+    else:
+        sc.par_crypt(kind, o, sc.rb(9 * bs), enc=True)
+        sc.par_crypt(kind, o, sc.rb(2 * bs), enc=False)
+
+
+def ctr_invalid_all(sc, kind, o):
+    """every class of invalid argument for every CTR function"""
+    bs = BS[kind]
+    sc.ctr_set_key(kind, o, None, bs, rounds=6)                        # null key
+    sc.ctr_set_key(kind, o, sc.rb(bs - 1), rounds=6)                   # too short
+    sc.ctr_set_key(kind, o, sc.rb(3 * bs + 1), rounds=6)               # too long
+    if kind == "mantis":
+        sc.ctr_set_key(kind, o, sc.rb(16), rounds=4)
+        sc.ctr_set_key(kind, o, sc.rb(16), rounds=9)
+        sc.ctr_set_tweak(kind, o, sc.rb(8), 7)
+        sc.ctr_set_tweak(kind, o, sc.rb(9), 9)
+    else:
+        sc.ctr_set_tweaked_key(kind, o, None, bs)
+        sc.ctr_set_tweaked_key(kind, o, sc.rb(bs - 1))
+        sc.ctr_set_tweaked_key(kind, o, sc.rb(2 * bs + 1))
+        sc.ctr_set_tweak(kind, o, sc.rb(bs), 0)
+        sc.ctr_set_tweak(kind, o, sc.rb(bs + 1), bs + 1)
+    sc.ctr_set_counter(kind, o, sc.rb(bs + 1), bs + 1)
+    sc.ctr_set_counter(kind, o, None, bs + 1)
+    sc.ctr_encrypt(kind, o, None, n=5)                                 # null input
+    sc.ctr_encrypt(kind, o, sc.rb(5), outnull=1)                       # null output
+
+
+def par_invalid_all(sc, kind, o):
+    bs = BS[kind]
+    sc.par_set_key(kind, o, None, bs, rounds=6, mode=1)
+    sc.par_set_key(kind, o, sc.rb(bs - 1), rounds=6, mode=1)
+    sc.par_set_key(kind, o, sc.rb(3 * bs + 1), rounds=6, mode=1)
+    if kind == "mantis":
+        sc.par_set_key(kind, o, sc.rb(16), rounds=4, mode=1)
+        sc.par_set_key(kind, o, sc.rb(16), rounds=9, mode=0)
+    for n in (1, bs - 1, bs + 1, 9 * bs - 1):
+        sc.par_crypt(kind, o, sc.rb(n), tweak=sc.rb(16 * bs) if kind == "mantis" else None)
+
+
+def null_object_calls(sc, kind):
+    bs = BS[kind]
+    sc.ctr_init(kind, "null")
+    sc.ctr_cleanup(kind, "null")
+    sc.ctr_set_key(kind, "null", valid_key(sc, kind), rounds=6)
+    if kind != "mantis":
+        sc.ctr_set_tweaked_key(kind, "null", sc.rb(bs))
+    sc.ctr_set_tweak(kind, "null", sc.rb(bs if kind != "mantis" else 8))
+    sc.ctr_set_counter(kind, "null", sc.rb(bs))
+    sc.ctr_encrypt(kind, "null", sc.rb(bs))
+    sc.par_init(kind, "null")
+    sc.par_cleanup(kind, "null")
+    sc.par_set_key(kind, "null", valid_key(sc, kind), rounds=6, mode=1)
+    sc.par_crypt(kind, "null", sc.rb(2 * bs), tweak=sc.rb(2 * bs) if kind == "mantis" else None)
+    if kind == "mantis":
+        sc.par_swap("null")
+
+
+def gen_c14(seed, tier, cap_for=lambda k: 2):
+    """every <object phase, function, invalid-argument class>, and invalid calls
+    interleaved in valid histories whose later outputs must be unaffected"""
+    sc = Sc(seed)
+    thorough = tier == "thorough"
+    for kind in ("s128", "s64", "mantis"):
+        bs = BS[kind]
+        cap = cap_for(kind)
+        sc.reset("c14-null-%s" % kind)
+        null_object_calls(sc, kind)
+        # key schedules (public structs)
+        sc.reset("c14-ks-%s" % kind)
+        if kind == "mantis":
+            for phase in ("unset", "set"):
+                if phase == "set":
+                    sc.mk_set_key(0, sc.rb(16), 7, 1)
+                    sc.mk_set_tweak(0, sc.rb(8))
+                sc.mk_set_key(0, None, 6, 1, 16)
+                sc.mk_set_key("null", sc.rb(16), 6, 1)
+                sc.mk_set_key(0, sc.rb(15), 6, 1)
+                sc.mk_set_key(0, sc.rb(17), 6, 0)
+                sc.mk_set_key(0, sc.rb(16), 4, 1)
+                sc.mk_set_key(0, sc.rb(16), 9, 0)
+                sc.mk_set_tweak(0, sc.rb(7), 7)
+                sc.mk_set_tweak(0, sc.rb(9), 9)
+                sc.mk_set_tweak("null", sc.rb(8))
+                sc.mk_crypt(0, sc.rb(8))
+        else:
+            for phase in ("unset", "set"):
+                if phase == "set":
+                    sc.ks_set_key(kind, 0, valid_key(sc, kind))
+                    sc.ks_set_tweaked_key(kind, 0, valid_key(sc, kind, True))
+                    sc.ks_set_tweak(kind, 0, sc.rb(bs))
+                sc.ks_set_key(kind, 0, None, bs)
+                sc.ks_set_key(kind, "null", sc.rb(bs))
+                sc.ks_set_key(kind, 0, sc.rb(bs - 1))
+                sc.ks_set_key(kind, 0, sc.rb(3 * bs + 1))
+                sc.ks_set_tweaked_key(kind, 0, None, bs)
+                sc.ks_set_tweaked_key(kind, "null", sc.rb(bs))
+                sc.ks_set_tweaked_key(kind, 0, sc.rb(bs - 1))
+                sc.ks_set_tweaked_key(kind, 0, sc.rb(2 * bs + 1))
+                sc.ks_set_tweak(kind, 0, sc.rb(bs), 0)
+                sc.ks_set_tweak(kind, 0, sc.rb(bs + 1), bs + 1)
+                sc.ks_set_tweak(kind, "null", sc.rb(bs))
+                if phase == "set":
+                    sc.ks_crypt(True, kind, 0, sc.rb(bs))
+                    sc.ks_crypt(True, kind, 0, sc.rb(bs), t=1)
+        # CTR / parallel objects in every phase
+        for phase in ("zeroed", "live", "keyed", "mid", "failed", "dead"):
+            sc.reset("c14-ctr-%s-%s" % (kind, phase))
+            if phase == "failed":
+                sc.ctr_init(kind, 0, cap=cap, fail=1)
+            elif phase != "zeroed":
+                sc.ctr_init(kind, 0, cap=cap)
+            if phase in ("keyed", "mid", "dead"):
+                sc.ctr_set_key(kind, 0, valid_key(sc, kind), rounds=7)
+                sc.ctr_set_counter(kind, 0, sc.rb(bs))
+            if phase == "mid":
+                sc.ctr_encrypt(kind, 0, sc.rb(bs + 5))
+            if phase == "dead":
+                sc.ctr_encrypt(kind, 0, sc.rb(bs + 5))
+                sc.ctr_cleanup(kind, 0)
+            ctr_invalid_all(sc, kind, 0)
+            # valid calls afterwards: in live phases the stream continues undisturbed,
+            # in inert phases every call returns 0
+            sc.ctr_encrypt(kind, 0, sc.rb(2 * bs + 1))
+            ctr_use_all(sc, kind, 0, mid=True)
+            ctr_invalid_all(sc, kind, 0)
+            sc.ctr_encrypt(kind, 0, sc.rb(bs))
+            sc.ctr_cleanup(kind, 0)
+            sc.quiesce()
+            sc.reset("c14-par-%s-%s" % (kind, phase))
+            if phase == "failed":
+                sc.par_init(kind, 0, cap=cap, fail=1)
+            elif phase != "zeroed":
+                sc.par_init(kind, 0, cap=cap)
+            if phase in ("keyed", "mid", "dead"):
+                sc.par_set_key(kind, 0, valid_key(sc, kind), rounds=7, mode=1)
+            if phase == "dead":
+                sc.par_cleanup(kind, 0)
+            par_invalid_all(sc, kind, 0)
+            par_use_all(sc, kind, 0)
+            par_invalid_all(sc, kind, 0)
+            sc.par_crypt(kind, 0, sc.rb(3 * bs), tweak=sc.rb(3 * bs) if kind == "mantis" else None)
+            sc.par_cleanup(kind, 0)
+            sc.quiesce()
+    return sc
+
+
+def gen_c15(seed, tier, cap_for=lambda k: 2):
+    """random interleavings of init / set-up / processing / cleanup / repeated
+    cleanup / use after cleanup / re-init over several objects of mixed kinds"""
+    sc = Sc(seed)
+    thorough = tier == "thorough"
+    for i in range(24 if thorough else 8):
+        sc.reset("c15-rand-%d" % i)
+        life = {}
+        objs = [(fam, kind, o) for fam in ("ctr", "par") for kind in ("s128", "s64", "mantis") for o in (0, 1)]
+        sc.rng.shuffle(objs)
+        objs = objs[:4]
+        for step in range(sc.rng.randrange(10, 40 if thorough else 24)):
+            fam, kind, o = sc.rng.choice(objs)
+            st = life.get((fam, kind, o), "zeroed")
+            r = sc.rng.random()
+            if r < 0.3 and st != "live":
+                fail = 1 if sc.rng.random() < 0.15 else None
+                pre = sc.rng.choice([None, 0, 255, 0x5A]) if st == "zeroed" else None
+                (sc.ctr_init if fam == "ctr" else sc.par_init)(kind, o, cap=cap_for(kind), fail=fail, prefill=pre)
+                life[(fam, kind, o)] = "failed" if fail else "live"
+            elif r < 0.5:
+                (sc.ctr_cleanup if fam == "ctr" else sc.par_cleanup)(kind, o)
+                if st == "live":
+                    life[(fam, kind, o)] = "dead"
+                if sc.rng.random() < 0.4:
+                    (sc.ctr_cleanup if fam == "ctr" else sc.par_cleanup)(kind, o)     # repeated cleanup
+            else:
+                if fam == "ctr":
+                    ctr_use_all(sc, kind, o, mid=sc.rng.random() < 0.5)
+                else:
+                    par_use_all(sc, kind, o)
+        for fam, kind, o in objs:
+            (sc.ctr_cleanup if fam == "ctr" else sc.par_cleanup)(kind, o)
+        sc.quiesce()
+    # reuse after cleanup for several cycles
+    for kind in ("s128", "s64", "mantis"):
+        sc.reset("c15-cycles-%s" % kind)
+        for cyc in range(4):
+            sc.ctr_init(kind, 0, cap=cap_for(kind))
+            sc.par_init(kind, 0, cap=cap_for(kind))
+            ctr_use_all(sc, kind, 0)
+            par_use_all(sc, kind, 0)
+            sc.ctr_cleanup(kind, 0)
+            sc.par_cleanup(kind, 0)
+            ctr_use_all(sc, kind, 0)       # use after cleanup: every call returns 0
+            par_use_all(sc, kind, 0)
+            sc.ctr_cleanup(kind, 0)
+            sc.par_cleanup(kind, 0)
+            sc.quiesce()
+    return sc
+
+
+def gen_c16(seed, tier, caps):
+    """complete fault enumeration: each init x back end x prior handle content x the one allocation"""
+    sc = Sc(seed)
+    n = 0
+    for kind in ("s128", "s64", "mantis"):
+        for cap in caps[kind]:
+            for fam in ("ctr", "par"):
+                for prior in ("zero", "ff", "5a", "a5ramp", "dead", "failed"):
+                    sc.reset("c16-%s-%s-cap%d-%s" % (fam, kind, cap, prior))
+                    n += 1
+                    init = sc.ctr_init if fam == "ctr" else sc.par_init
+                    cleanup = sc.ctr_cleanup if fam == "ctr" else sc.par_cleanup
+                    useall = (lambda: ctr_use_all(sc, kind, 0)) if fam == "ctr" else (lambda: par_use_all(sc, kind, 0))
+                    pre = {"zero": 0, "ff": 255, "5a": 0x5A, "a5ramp": 0xA5}.get(prior)
+                    if prior == "dead":
+                        init(kind, 0, cap=cap)
+                        useall()
+                        cleanup(kind, 0)
+                    if prior == "failed":
+                        init(kind, 0, cap=cap, fail=1, prefill=0x33)
+                    init(kind, 0, cap=cap, fail=1, prefill=pre)
+                    sc.quiesce()                       # nothing leaked
+                    if sc.rng.random() < 0.5:
+                        cleanup(kind, 0)               # cleanup is safe ...
+                        useall()                       # ... and every other call reports failure
+                    else:
+                        useall()
+                        cleanup(kind, 0)
+                    cleanup(kind, 0)
+                    init(kind, 0, cap=cap)             # the object can be initialised and used afterwards
+                    useall()
+                    cleanup(kind, 0)
+                    sc.quiesce()
+    return sc, n
+
+
+def gen_c17(seed, tier, cap_for=lambda k: 2):
+    """histories that make every region of the context dirty before cleanup"""
+    sc = Sc(seed)
+    for kind in ("s128", "s64", "mantis"):
+        bs = BS[kind]
+        for variant in range(4 if tier == "thorough" else 2):
+            sc.reset("c17-ctr-%s-%d" % (kind, variant))
+            sc.ctr_init(kind, 0, cap=cap_for(kind))
+            if kind == "mantis":
+                sc.ctr_set_key(kind, 0, sc.rb_nz(16), rounds=8)
+                sc.ctr_set_tweak(kind, 0, sc.rb_nz(8))
+            elif variant % 2 == 0:
+                sc.ctr_set_key(kind, 0, sc.rb_nz(3 * bs))
+            else:
+                sc.ctr_set_tweaked_key(kind, 0, sc.rb_nz(2 * bs))
+                sc.ctr_set_tweak(kind, 0, sc.rb_nz(bs))
+            sc.ctr_set_counter(kind, 0, sc.rb_nz(bs))
+            sc.ctr_encrypt(kind, 0, sc.rb(8 * bs))            # >= 1 full batch
+            sc.ctr_encrypt(kind, 0, sc.rb(bs + 3))            # plus a partial one: offset mid-buffer
+            sc.ctr_cleanup(kind, 0)
+            sc.reset("c17-par-%s-%d" % (kind, variant))
+            sc.par_init(kind, 0, cap=cap_for(kind))
+            sc.par_set_key(kind, 0, sc.rb_nz(16 if kind == "mantis" else 3 * bs), rounds=8, mode=variant % 2)
+            sc.par_crypt(kind, 0, sc.rb(9 * bs), tweak=sc.rb(9 * bs) if kind == "mantis" else None)
+            sc.par_cleanup(kind, 0)
+    return sc
+
+
+def life_mc(work, out, pid, tier):
+    r, ok = run_mc(work, out, "MC_Life", "MC_Life",
+                   must_cover=("CallerZero", "CallerJunk", "DoInit", "DoUse", "DoCleanup"))
+    if not ok:
+        mc_violation(pid, out, "MC_Life", r)
+    run_mc(work, out, "MC_Life", "MCneg_Life_shipped", expect_fail=True)
+
+
+LIFE_ASSUME = ["design-level exhaustiveness within MC_Life's constants (2 objects, 3 blocks, 7 calls)",
+               "calloc/free of the library observed through -Wl,--wrap; released blocks are quarantined PROT_NONE"]
+
+
+def check_C14(work, tier, seed):
+    out = Outcome()
+    life_mc(work, out, "C14", tier)
+    b = build(work)
+    lines = backend_sweep(work, b, "C14", seed, lambda cf: gen_c14(seed, tier, cf), out)
+    note_distinct(out, lines, ("o", "len", "n", "nr", "ret", "key_null", "tweak_null", "ctr_null", "in_null", "outnull"))
+    out.samples = sample_events([x for x in lines if '"ret":0' in x], maxlen=240)
+    return out, dict(
+        level="model_checking",
+        rule="Design: MC_Life (TLC exhaustive): implementation-shaped handle/heap model, all sequences of caller "
+             "zero/junk, init (incl. failure), use, cleanup over 2 objects: RetContract, NoCrash, NoLeak, "
+             "FailedIsInert; shipped init must fail. Code: every <object phase in zeroed/live/keyed/mid-stream/"
+             "failed/dead> x <public function> x <invalid-argument class> (NULL object/key/data, length low/high, "
+             "rounds, ragged size) per kind and back end, surrounded by valid calls whose outputs the model predicts "
+             "as if the invalid call had not been made; arenas compared for stray writes; all validated by TLC.",
+        assumptions=LIFE_ASSUME)
+
+
+def check_C15(work, tier, seed):
+    out = Outcome()
+    life_mc(work, out, "C15", tier)
+    b = build(work)
+    lines = backend_sweep(work, b, "C15", seed, lambda cf: gen_c15(seed, tier, cf), out)
+    note_distinct(out, lines, ("o", "ret", "lv", "nf", "fail"))
+    out.samples = sample_events([x for x in lines if "cleanup" in x or "init" in x], maxlen=200)
+    return out, dict(
+        level="model_checking",
+        rule="Design: MC_Life (see C14): NoLeak, FreeOnce, RetContract over all interleavings. Code: random "
+             "interleavings of init/set-up/processing/cleanup/repeated cleanup/use-after-cleanup/re-init over 4 "
+             "objects of mixed kinds, and 4 reuse cycles per kind, on every back end; the trace carries the "
+             "allocator activity of every call (frees, invalid frees, live blocks) and is validated by TLC; released "
+             "blocks are PROT_NONE so a use-after-free is a crash event (no spec action).",
+        assumptions=LIFE_ASSUME)
+
+
+def check_C16(work, tier, seed):
+    out = Outcome()
+    life_mc(work, out, "C16", tier)
+    b = build(work)
+    sc, n = gen_c16(seed, tier, CAPS)
+    lines = conform(work, b, "C16", seed, sc.text(), out)
+    for ln in lines:
+        if '"fail":1' in ln:
+            out.distinct.add(hash(ln))
+    out.samples = sample_events([x for x in lines if '"fail":1' in x], maxlen=240)
+    return out, dict(
+        level="fault_enumeration",
+        exhaustive=True,
+        rule="Complete enumeration: each of the six init functions x each back end (cap) x prior handle content "
+             "{zero, 0xFF, 0x5A, 0xA5, image of a cleaned-up object, image of a failed init} x failure of the one "
+             "allocation each init makes (%d fault cases); then quiesce (no leak), cleanup and every other call in "
+             "both orders (must be safe and return 0), successful re-init and normal use. Validated by TLC against "
+             "the contract (InitOutcome: failed == dead). distinct = distinct failing-init events." % n,
+        assumptions=LIFE_ASSUME + ["each init makes exactly one allocation request (observed: na = 1 in every init event)"])
+
+
+def check_C17(work, tier, seed):
+    out = Outcome()
+    life_mc(work, out, "C17", tier)
+    b = build(work)
+    lines = backend_sweep(work, b, "C17", seed, lambda cf: gen_c17(seed, tier, cf), out)
+    lines += conform(work, b, "C17", seed + 1, gen_c15(seed + 1, "quick").text(), out, tag="-hist")
+    note_distinct(out, lines, ("o", "nz", "nf", "cap"))
+    out.samples = sample_events([x for x in lines if "cleanup" in x], maxlen=200)
+    return out, dict(
+        level="model_checking",
+        rule="Design: MC_Life WipedAtFree (every block is clean when released) over all interleavings. Code: "
+             "histories that dirty every region of the context (round keys, tweak, counters, keystream buffer with "
+             "the offset mid-buffer) before cleanup, plus the random life-cycle histories, for every kind and back "
+             "end (context layouts differ); the wrapped free() counts the non-zero bytes of the whole block as "
+             "allocated before releasing it, the trace spec requires 0 at every cleanup.",
+        assumptions=LIFE_ASSUME)
+
+
+CHECKS.update({"C14": check_C14, "C15": check_C15, "C16": check_C16, "C17": check_C17})
